@@ -1836,3 +1836,38 @@ def _skeleton2(uses: set, two: bool, kind: str) -> dict:
     else:
         out = add("Scan", [(x, 0), (xs, 0)], [{"args": formals, "res": [list(res)]}], attrs={"num_scan_inputs": 1}, tys=[V])
     return {"nodes": nodes, "outputs": [[out, 0]], "opset": 17}
+
+
+# ------------------------------------------------------------- bridge to C04's Builder model
+def to_buildalg(prog, margs: Optional[list[int]] = None, mres: Optional[list] = None) -> dict:
+    """The program in the format of C04's algorithm model (`Model/BuildAlg.lean`): nodes
+    `{a: is Argument, i: input node ids, s: graph ids of the bodies}` in id order, graphs
+    `{res: result node ids, args: argument ids}` with graph 0 = main (arguments / results in `margs` /
+    `mres` order = the order of the dicts handed to `build`)."""
+    graphs = [{"res": [r[0] for r in (prog["outputs"] if mres is None else mres)],
+               "args": list(main_args(prog) if margs is None else margs)}]
+    nodes = []
+    for n in prog["nodes"]:
+        gids = []
+        for s_ in n["subs"]:
+            graphs.append({"res": [r[0] for r in s_["res"]], "args": list(s_["args"])})
+            gids.append(len(graphs) - 1)
+        if n["op"] == "If":  # spox's attribute order is (else_branch, then_branch): that is the DFS order
+            gids.reverse()
+        nodes.append({"a": n["op"] == "arg", "i": [r[0] for r in n["ins"] if r is not None], "s": gids})
+    return {"nodes": nodes, "graphs": graphs}
+
+
+def normal_emission(prog, em, attr_order: bool = False):
+    """(`attr_order`: the emission lists the bodies of an If in spox's attribute order — else, then —
+    as the algorithm model does; they are put back into [then, else].)  Emission modulo what the two sides cannot agree on by construction: initializers have no
+    position in a GraphProto (compared as a set per graph), the algorithm model has no output index."""
+    is_init = lambda k: k < len(prog["nodes"]) and prog["nodes"][k]["op"] == "init"  # noqa: E731
+    return [
+        list(em[0]),
+        sorted(k for k, _ in em[1] if is_init(k)),
+        [[k, [normal_emission(prog, s_, attr_order) for s_ in
+              (list(reversed(subs)) if attr_order and k < len(prog["nodes"]) and prog["nodes"][k]["op"] == "If" else subs)]]
+         for k, subs in em[1] if not is_init(k)],
+        [r[0] for r in em[2]],
+    ]
